@@ -131,6 +131,48 @@ def resolveWords (env : Env) : Nat → Chain → Nat → List Word → Bool → 
           if !forceString then .ok (acc ++ (rs.headD []))
           else .ok (acc ++ [wordDq (rs.foldl (fun s r => s ++ (r.headD (wordDq [])).value) [])])
 
+/-- the ids of the definitions `resolve_variables` consults (and marks `tmp = True`), transitively:
+    same traversal as `resolveWords`, collecting instead of substituting -/
+def resolveRefs : Nat → Chain → Nat → List Word → List Nat
+  | 0, _, _, _ => []
+  | fuel + 1, chain, id, words =>
+    words.flatMap fun (w : Word) =>
+      if w.quote == some .s1 then [] else
+      match fragments w.value with
+      | .error _ => []
+      | .ok (frags, _) =>
+        frags.flatMap fun (f : Fragment) =>
+          match f with
+          | .lit _ => []
+          | .var name =>
+            match lexicalGet (2 * name.length + chain.length + 1) chain name id true with
+            | some (.defn m ws, ch) =>
+              (match m.id with
+               | some sid => sid :: resolveRefs fuel ch sid ws
+               | none => [])
+            | _ => []
+
+def hasLiveDollar (ws : List Word) : Bool := ws.any (fun w => w.quote != some .s1 && w.value.contains '$')
+
+/-- annotate every definition whose words contain a live `$` with the outcome of
+    `resolve_variables(diff_mode)` in its own document (`Meta.varRes`) -/
+def preResolveList (env : Env) (diff : Bool) (total : Nat) : Nat → Chain → List Obj → List Obj
+  | 0, _, objs => objs
+  | fuel + 1, outer, objs =>
+    objs.map fun (o : Obj) =>
+      match o with
+      | .defn m ws =>
+        if !hasLiveDollar ws then o else
+        (match m.id with
+         | none => o
+         | some id =>
+           let res : VarRes := match resolveWords env (total + 2) (objs :: outer) id ws diff with
+             | .ok rws => .ok rws (resolveRefs (total + 2) (objs :: outer) id ws)
+             | .error (.runtime site line) => .err site line
+             | .error _ => .err "unsupported" none
+           .defn { m with varRes := some res } ws)
+      | .scope m kids => .scope m (preResolveList env diff total fuel (objs :: outer) kids)
+
 /-- find the chain and id of the definition at an index path from the root -/
 def chainAt : List Obj → List Nat → Chain → Option (Obj × Chain)
   | objs, [i], ch => (objs[i]?).map (fun o => (o, objs :: ch))
@@ -144,6 +186,10 @@ def countObjs : List Obj → Nat
   | [] => 0
   | .defn _ _ :: r => 1 + countObjs r
   | .scope _ k :: r => 1 + countObjs k + countObjs r
+
+def preResolve (env : Env) (diff : Bool) (root : List Obj) : List Obj :=
+  preResolveList env diff (countObjs root) (countObjs root + 1) [] root
+
 
 /-- `definition.resolve_variables()` for the definition at `path` of a parsed document -/
 def resolveAt (env : Env) (root : List Obj) (path : List Nat) (diff : Bool) : R (List Word) :=
